@@ -57,7 +57,16 @@ InDomain(r) ==
                                  /\ r.base[1] > 8 /\ r.base[1] < 9990
        [] r.form = "yy"       -> r.m \in 1..12 /\ r.d >= 1 /\ r.d <= DIMTab[r.m] /\ r.yy \in 0..99
                                  /\ r.base[1] >= 1970 /\ r.base[1] <= 2067
+       [] r.form = "timegap"  -> TRUE
        [] OTHER -> FALSE
+
+\* a clock time alone under a zone WITH daylight saving, around its transitions (wall times that do not exist or exist
+\* twice): whichever day is chosen, it is the reference day or a neighbour ('current_period': the reference day), and
+\* "the time of day named in the string is preserved"
+TimeKept(r, out) ==
+  /\ out[4] = r.t[1] /\ out[5] = r.t[2] /\ out[6] = r.t[3]
+  /\ LET dd == OrdOf(<<out[1], out[2], out[3]>>) - OrdOf(<<r.base[1], r.base[2], r.base[3]>>) IN
+     IF r.pref = "current_period" THEN dd = 0 ELSE dd \in {-1, 0, 1}
 
 \* "ok" | "wrong" ; out = None (<<>>) is always wrong inside the domain
 Holds(r, out) ==
@@ -65,6 +74,7 @@ Holds(r, out) ==
   ELSE CASE r.form = "weekday"  -> out = WeekdayOnly(r.base, r.w, r.pref)
          [] r.form = "time"     -> \/ out = TimeOnly(r.base, r.t, r.pref, r.off)
                                    \/ out = TimeOnly(r.base, r.t, r.pref, 0)
+         [] r.form = "timegap"  -> TimeKept(r, out)
          [] r.form = "month"    -> MonthOK(r.base, r.m, r.pref, out)
          [] r.form = "daymonth" -> DayMonthOK(r.base, r.m, r.d, r.pref, out)
          [] r.form = "yy"       -> TwoDigitOK(r.base, r.m, r.d, r.yy, r.pref, out)
